@@ -62,6 +62,8 @@ TRANSPARENT = [
     r"std::vec::Vec::to_vec$",
     r"std::slice::to_vec$",
     r"std::slice::iter$",
+    r"std::slice::from_ref$",      # a one-element slice of the value
+    r"std::slice::from_mut$",
     r"std::slice::into_vec$",
     r"<.* as std::iter::IntoIterator>::into_iter$",
     r"<.* as std::iter::Iterator>::next$",
